@@ -9,6 +9,9 @@ def gen_random(cs, rnd, n):
     for i in range(n):
         ks = rnd.sample(["k1", "k2", "k3"], rnd.choice([1, 1, 2, 3]))
         cfg = PL.mkcfg(sorts=[{"e": PL.field(k), "desc": rnd.random() < 0.5} for k in ks])
+        if len(cfg["sorts"]) >= 2 and rnd.random() < 0.2:
+            # a key given again further down the list changes nothing: it is already decided when its turn comes
+            cfg["sorts"].append(dict(cfg["sorts"][rnd.randrange(len(cfg["sorts"]) - 1)]))
         if rnd.random() < 0.3:
             cfg["sorts"][0]["e"] = rnd.choice([PL.SELF, PL.path(["k1", 0]), PL.field("g")])
         if rnd.random() < 0.2:
